@@ -432,7 +432,17 @@ def to_carr(x):
         return x
     if isinstance(x, BArr):
         b = BArr(x.a.copy(), x.dtype, x.origin)
-        return CArr.from_fn(lambda *i: b.at(*i), b.shape, b.dtype, origin=b.origin)
+
+        def safe_at(*i):
+            # closure compositions (concatenate / where / insert ...) evaluate every part eagerly and select afterwards: a
+            # concrete out-of-range read can only sit under a false selecting condition; real subscripts are bounds-checked
+            # by lib.check_index before they reach a closure
+            i = tuple(N(k) for k in i)
+            for k, n in zip(i, b.a.shape):
+                if isinstance(k, int) and not -n <= k < n:
+                    return cast_scalar(0, b.dtype if b.dtype != 'object' else 'float')
+            return b.at(*i)
+        return CArr.from_fn(safe_at, b.shape, b.dtype, origin=b.origin)
     raise EngineError('not an array: %r' % (x,))
 
 
